@@ -17,6 +17,7 @@
 #include <pistache/http_header.h>
 #include <pistache/stream.h>
 
+#include <algorithm>
 #include <cstring>
 #include <iostream>
 #include <iterator>
@@ -639,7 +640,18 @@ namespace Pistache::Http::Header
         tokens_.emplace_back(token);
     }
 
-    void Server::parse(const std::string& token) { tokens_.push_back(token); }
+    void Server::parse(const std::string& data)
+    {
+        // product tokens are separated by spaces (see Server::write)
+        size_t pos = 0;
+        while (pos < data.size())
+        {
+            const size_t end = std::min(data.find(' ', pos), data.size());
+            if (end > pos)
+                tokens_.push_back(data.substr(pos, end - pos));
+            pos = end + 1;
+        }
+    }
 
     void Server::write(std::ostream& os) const
     {
